@@ -693,9 +693,11 @@ def run_lines(exe, sub, lines, workers=8, timeout=3600):
                     except ValueError:
                         pass
             if rc != 0 or len(outs) != len(chunks[i]):
-                errs[i] = "rc=%d %s" % (rc, e[-1000:])
+                errs[i] = "rc=%d got %d of %d answers %s" % (rc, len(outs), len(chunks[i]), e[-1000:])
             else:
                 res[i] = outs
+        except Exception as ex:  # noqa: BLE001
+            errs[i] = "exception in driver worker: %r" % (ex,)
         finally:
             shutil.rmtree(tmp, ignore_errors=True)
 
